@@ -40,6 +40,11 @@ RecordOK(fmt, mo, r, K) ==
   /\ HasDesc(fmt) => r.desc = mo.desc
   /\ HasAccName(fmt) => r.acc = mo.acc /\ r.name = mo.name
 
+\* Beyond C14 (advisory): the literature references of a TRANSFAC entry (RN / RX / RA / RT / RL blocks) come back in
+\* file order as <<number, <<xref>>, <<pubmed id>>, <<title>>, <<link>>>> (absent parts are empty sequences); every other
+\* metadata line the format allows (DT, CO, BF, BS, BA, CC) leaves the record's listed fields and matrix unchanged.
+RefsOK(mo, r) == ("refs" \in DOMAIN mo /\ "refs" \in DOMAIN r) => r.refs = mo.refs
+
 ReaderInit(motifs) == [todo |-> motifs, live |-> TRUE]
 
 \* C15: outcome sequences of reader construction followed by requests until the first non-record
